@@ -76,6 +76,7 @@ class PlanRun:
         self.wait_outcome = None
         self.wait_snapshot = None
         self.job_futures = {}
+        self.jobdirs = {}
 
     # ---- recorded futures
     def on_coroutine(self, qualname, fut):
@@ -155,12 +156,17 @@ class PlanRun:
         t, init = self.build(j, 0)
         key = f"j{j}"
         before = len(self.xp.scheduler.jobs)
+        rec = {"key": key, "kind": kind, "step": eng.step}
         if kind != "dup":
             object.__setattr__(t, "_xv_key", key)
-        live = [p for p in eng.procs.values() if p.jobkey == key and not p.exited]
-        out = t.submit(init_tasks=init)
+            # the job is registered with the monitors by the launcher's submit listener, i.e. before the scheduler
+            # can possibly launch it (with eager helper threads a launch may happen inside submit())
+            self._submitting = {"key": key, "rec": rec, "spec": spec, "j": j}
+        try:
+            out = t.submit(init_tasks=init)
+        finally:
+            self._submitting = None
         job = t.__xpm__.job
-        rec = {"key": key, "kind": kind, "step": eng.step}
         if kind == "dup":
             first_out = self.outputs[j]
             if out is not first_out:
@@ -171,6 +177,18 @@ class PlanRun:
                 eng.violation("C05", "duplicate-submit-schedules-job", f"second submission of job {j} scheduled a second job object")
             self.actions_log.append(rec)
             return
+        self.tasks[j] = t
+        self.outputs[j] = out
+        self.actions_log.append(rec)
+
+    def on_job_submitted(self, job):
+        """Launcher submit listener: runs inside ConfigInformation.submit, before the job reaches the scheduler."""
+        ctxt = getattr(self, "_submitting", None)
+        if ctxt is None or getattr(job.config, "_xv_key", None) != ctxt["key"]:
+            return
+        eng = self.eng
+        key, rec, spec = ctxt["key"], ctxt["rec"], ctxt["spec"]
+        live = [p for p in eng.procs.values() if p.jobkey == key and not p.exited]
         job._xv_key = key
         job._xv_run = self.xp
         rec["relpath"] = str(job.relpath)
@@ -180,11 +198,9 @@ class PlanRun:
         rec["upstream_objs"] = [(f"j{d['on']}", self.tasks[d["on"]].__xpm__.job) for d in spec.get("deps", [])]
         job._xv_rec = rec
         eng.jobs.setdefault(key, []).append(job)
+        self.jobdirs[key] = str(job.path)
         eng.jobdir2key[str(job.path)] = key
         eng.codes[key] = spec.get("codes", [0])
-        self.tasks[j] = t
-        self.outputs[j] = out
-        self.actions_log.append(rec)
 
     # ---- one run of the experiment
     def run_once(self, run_spec, run_index):
@@ -197,6 +213,8 @@ class PlanRun:
         eng.ipcom = engb.FakeIPCom()
         xipc.IPCom.INSTANCE = eng.ipcom
         launcher = engb.make_launcher(eng, self.workdir)
+        launcher.addListener(self.on_job_submitted)
+        self._submitting = None
         xp = experiment(self.workdir / "ws", run_spec.get("name", "xp"), launcher=launcher)
         self.xp = xp
         self.wait_future = None
@@ -210,6 +228,21 @@ class PlanRun:
         eng.xp = xp
         eng.wrap_loop(xp.loop)
         central = xp.central
+        # the user cleaned the results of some jobs between two runs (markers removed, outputs gone)
+        for j in run_spec.get("clean_before", []):
+            jd = self.jobdirs.get(f"j{j}")
+            if jd is not None and Path(jd).is_dir():
+                for m in list(Path(jd).glob("*.done")) + list(Path(jd).glob("*.failed")):
+                    m.unlink()
+                eng.events.append(("cleaned", f"j{j}", eng.step))
+                for h in eng.hooks:
+                    if hasattr(h, "on_cleaned"):
+                        h.on_cleaned(eng, f"j{j}")
+        # job processes that outlived an aborted run may end before the experiment is run again
+        for proc in list(eng.procs.values()):
+            if not proc.owned and not proc.exited and proc.jobkey.startswith("j") and eng.eager_rng.random() < 0.3:
+                proc.do_exit()
+                eng.events.append(("orphan-exit-before-run", proc.jobkey, eng.step))
         self.tokens = []
         for ti, tk in enumerate(self.plan.get("tokens", [])):
             tok = CounterToken(f"tok{ti}-{self.seed}-{run_index}-{id(self)}", self.workdir / "tokens" / f"tok{ti}", tk["total"])
@@ -358,7 +391,7 @@ class PlanRun:
         tok = self.foreign_token()
         eng = self.eng
         if c[1] == "release":
-            dep = st["held"].pop(eng.rng.randrange(len(st["held"])) if eng.decisions is None else 0)
+            dep = st["held"].pop(eng.eager_rng.randrange(len(st["held"])))
             # the foreign job ends, then its scheduler gives the token back
             dep._xv_proc.do_exit()
             tok.release(dep)
